@@ -45,6 +45,18 @@ StdClassesSound == \A cls \in {"Id", "Ff"} :
     /\ AllowsScan(W, cls, input) = r
     /\ IsErr(r) => r.err \in {"BadCodepoint", "Undefined"}
 
+\* translation law, used to extend the binding to long labels and large offsets: padding a label in front with copies
+\* of its first and behind with copies of its last character moves every rule result with the offset, for every
+\* position that has both neighbours inside the label; and the standard classes decide a padded label as the label
+\* (the reported position moves) when the first and last character are valid and not contextual themselves
+Pad(s, i, j) == [x \in 1..i |-> s[1]] \o s \o [x \in 1..j |-> s[Len(s)]]
+CtxPadLaw == (Len(input) >= 3) => \A r \in RuleNames, off \in 1..(Len(input) - 2), i \in 0..2, j \in 0..2 :
+  DRule(W, r, Pad(input, i, j), off + i) = DRule(W, r, input, off)
+Plain(c) == W.u[c].idp = "PVALID"
+AllowsPadLaw == (input # <<>> /\ Plain(input[1]) /\ Plain(input[Len(input)])) => \A cls \in {"Id", "Ff"}, i \in 0..2, j \in 0..2 :
+  LET r == Allows(W, cls, input)  rp == Allows(W, cls, Pad(input, i, j)) IN
+    rp = (IF IsErr(r) /\ "pos" \in DOMAIN r THEN [r EXCEPT !.pos = @ + i] ELSE r)
+
 Emit == /\ \A r \in Rules, off \in Offsets :
              PrintT(<<"REPLAY", ToJson([k |-> "ctx", rule |-> r, s |-> input, off |-> off, res |-> Rule(W, r, input, off)])>>)
         /\ \A cls \in {"Id", "Ff"} :
